@@ -498,7 +498,7 @@ def check(prop: str) -> int:
         rep.add_tlc("MC_lifecycle (main / saver / file jobs, StopMode = event)", summ, {"schedules_emitted": len(scheds)})
         jobs = [concretise(s) for s in scheds]
         ctx = multiprocessing.get_context("fork")
-        with ctx.Pool(16) as pool:
+        with ctx.Pool(16, initializer=common.limit_worker) as pool:
             runs = pool.map(run_schedule, jobs, chunksize=16)
             n_model = len(runs)
             ejobs = [(sc, 1500 if tier == "quick" else 8000, 14 if tier == "quick" else 18) for sc in scenarios(tier)]
